@@ -89,7 +89,9 @@ class Report:
             print(f"WARN property={self.pid} {o.key} at {o.where}: {o.detail}")
         for o, e in listed:
             print(f"KNOWN-FINDING: property={self.pid} {o.key} at {o.where}: {e.get('what', o.detail)}")
-        replay = os.path.join(VERIF, "evidence", f"{self.pid}.violations.json")
+        evdir = os.environ.get("VERIF_EVIDENCE_DIR") or os.path.join(VERIF, "evidence")
+        os.makedirs(evdir, exist_ok=True)
+        replay = os.path.join(evdir, f"{self.pid}.violations.json")
         if new:
             with open(replay, "w") as f:
                 json.dump([o.__dict__ for o in new], f, indent=1)
@@ -150,8 +152,9 @@ class Report:
             "wall_s": round(time.time() - self.t0, 3),
             "violations": n_new,
         }
-        os.makedirs(os.path.join(VERIF, "evidence"), exist_ok=True)
-        with open(os.path.join(VERIF, "evidence", f"{self.pid}.json"), "w") as f:
+        evdir = os.environ.get("VERIF_EVIDENCE_DIR") or os.path.join(VERIF, "evidence")
+        os.makedirs(evdir, exist_ok=True)
+        with open(os.path.join(evdir, f"{self.pid}.json"), "w") as f:
             json.dump(ev, f, indent=1, default=str)
 
 
